@@ -2,6 +2,7 @@ mod core;
 mod crash;
 mod crashmc;
 mod exec;
+mod faultmc;
 mod interpose;
 mod model;
 mod observe;
